@@ -271,6 +271,21 @@ def replay_auth(lab, mname, model):
     return _replayed[k]
 
 
+def replay_sessions():
+    import C17_replay
+    if 'sessions' not in _replayed:
+        _replayed['sessions'] = C17_replay.replay_sessions()
+    return _replayed['sessions']
+
+
+def replay_dispatch(lab, mname, model):
+    import C17_replay
+    k = ('dispatch', lab, mname)
+    if k not in _replayed:
+        _replayed[k] = C17_replay.replay_dispatch(lab, mname, model)
+    return _replayed[k]
+
+
 def run(ctx):
     prog, info = cl.load()
     ctx.bounds.update({
